@@ -52,6 +52,8 @@ pub mod ext {
     pub fn expect_or_diverge<T, E: std::fmt::Debug>(res: Result<T, E>, msg: &str) -> (r: T)
         ensures res == Ok::<T, E>(r),
     { res.expect(msg) }
+    pub assume_specification<T> [Option::<T>::replace] (o: &mut Option<T>, v: T) -> (r: Option<T>)
+        ensures r == *old(o), *final(o) == Some(v);
     pub uninterp spec fn io_kind(e: std::io::Error) -> std::io::ErrorKind;
     pub assume_specification [std::io::Error::kind] (e: &std::io::Error) -> (r: std::io::ErrorKind)
         ensures r == io_kind(*e);
